@@ -93,10 +93,10 @@ def outcome_kind(out, aux_rec=None):
         return 0
     if out[1] == "RecursionError":
         return {"redispatch": 3, "build-cycle": 4}.get(aux_rec)
-    if len(out) > 3 and out[3] == "AttributeError":
-        if "__dialect_" in out[2] or (out[1] != "AttributeError"):
-            return 1 if "__dialect_" in out[2] else None
-        if "__mashumaro_" in out[2]:
+    if len(out) > 4 and out[3] == "AttributeError":
+        if "__dialect_" in out[4]:
+            return 1
+        if "__mashumaro_" in out[4]:
             return 2
     return None
 
